@@ -46,6 +46,7 @@ import (
 	"time"
 
 	"github.com/gopcua/opcua"
+	"github.com/gopcua/opcua/debug"
 	"github.com/gopcua/opcua/ua"
 	"pgregory.net/rapid"
 
@@ -54,7 +55,16 @@ import (
 	"verif/pkg/starve"
 )
 
-func TestMain(m *testing.M) { log.SetOutput(io.Discard); ev.Main(m) }
+func TestMain(m *testing.M) {
+	log.SetOutput(io.Discard)
+	if os.Getenv("VERIF_C27_DEV_DEBUG") != "" {
+		// development only: gopcua's debug log on stdout
+		log.SetOutput(os.Stdout)
+		log.SetFlags(log.Lmicroseconds)
+		debug.Enable = true
+	}
+	ev.Main(m)
+}
 
 var rec = ev.For("C27", "rapid-drawn scripts of 3-14 actions over one opcua.Client against a scripted server: Subscribe / Cancel (also repeated) / ForgetSubscription / Monitor / Unmonitor, each in its own goroutine, interleaved with the server releasing, failing (ServiceFault), withholding the outstanding PublishResponse or dropping the connection; AutoReconnect on and off; session kept or lost and subscriptions transferred or not on reconnect; non-trivial = at least one API call was issued while a PublishRequest was outstanding (unanswered and younger than the publish timeout); distinct by hash of the drawn script")
 
@@ -126,6 +136,9 @@ type Observed struct {
 	Verdict string   `json:"verdict"`
 	Calls   []string `json:"calls,omitempty"`
 	Parked  []string `json:"parked_goroutines,omitempty"`
+	State   string   `json:"client_state,omitempty"`
+	Subs    []uint32 `json:"client_subscription_ids,omitempty"`
+	All     []string `json:"all_gopcua_goroutines,omitempty"`
 	Events  []string `json:"events,omitempty"`
 	Others  []string `json:"confirmations,omitempty"`
 }
@@ -210,6 +223,7 @@ type world struct {
 	seq      map[uint32]uint32
 	tokConn  map[string]int // authentication token -> connection that created the session
 	auto     bool
+	autoFrom int  // arrivals when the server began to answer everything
 	lied     bool // BadNoSubscription sent while the server had subscriptions
 	faults   int
 	events   []string
@@ -318,6 +332,9 @@ func (w *world) handle(conn *script.Conn, req ua.Request, reqID uint32) bool {
 			})
 		} else {
 			w.logf("server: conn#%d publish %d arrived", conn.ID, reqID)
+		}
+		if w.auto && w.arrivals <= w.autoFrom+6 {
+			w.logf("server: conn#%d publish %d arrived (answered in 20 ms)", conn.ID, reqID)
 		}
 		w.mu.Unlock()
 		return true
@@ -757,14 +774,17 @@ func (g gor) sig() string {
 	return fmt.Sprintf("goroutine %d [%s] %s", g.id, g.state, strings.Join(fs, " <- "))
 }
 
-// parked returns, for the goroutines selected by sel that did not exist before
-// the case started, the signatures that are identical in two dumps 1 s apart.
-func parked(base map[int]bool, sel func(gor) bool) (same []string, changed bool) {
-	take := func() map[int]string {
-		m := map[int]string{}
+// parked takes two goroutine dumps 1 s apart, restricted to goroutines that did
+// not exist before the case started. It returns the signatures of the
+// goroutines selected by show that are identical in both dumps, and whether any
+// goroutine selected by must (the ones the verdict is about) is not parked at
+// the same frames in both dumps (or there is none although one is required).
+func parked(base map[int]bool, must, show func(gor) bool, required bool) (same []string, changed bool) {
+	take := func() map[int]gor {
+		m := map[int]gor{}
 		for _, g := range dumpAll() {
-			if !base[g.id] && sel(g) {
-				m[g.id] = g.sig()
+			if !base[g.id] && (must(g) || show(g)) {
+				m[g.id] = g
 			}
 		}
 		return m
@@ -772,20 +792,54 @@ func parked(base map[int]bool, sel func(gor) bool) (same []string, changed bool)
 	d1 := take()
 	time.Sleep(time.Second)
 	d2 := take()
-	for id, s := range d1 {
-		if d2[id] == s {
-			same = append(same, s)
-		} else {
+	nmust := 0
+	for id, g := range d1 {
+		g2, ok := d2[id]
+		if ok && g2.sig() == g.sig() {
+			same = append(same, g.sig())
+		}
+		if must(g) {
+			nmust++
+			if !ok || g2.sig() != g.sig() || g.state == "running" || g.state == "runnable" {
+				changed = true
+			}
+		}
+	}
+	for id, g := range d2 {
+		if _, ok := d1[id]; !ok && must(g) {
 			changed = true
 		}
 	}
-	for id := range d2 {
-		if _, ok := d1[id]; !ok {
-			changed = true
-		}
+	if required && nmust == 0 {
+		changed = true
 	}
 	sort.Strings(same)
 	return same, changed
+}
+
+// allGopcua lists every goroutine of the case with a frame inside gopcua.
+func allGopcua(base map[int]bool) []string {
+	var out []string
+	for _, g := range dumpAll() {
+		if base[g.id] {
+			continue
+		}
+		var fs []string
+		for _, f := range g.frames {
+			if strings.HasPrefix(f, "github.com/gopcua/opcua") {
+				fs = append(fs, strings.TrimPrefix(f, "github.com/gopcua/opcua"))
+			}
+		}
+		if len(fs) == 0 {
+			continue
+		}
+		if len(fs) > 4 {
+			fs = fs[:4]
+		}
+		out = append(out, fmt.Sprintf("goroutine %d [%s] %s", g.id, g.state, strings.Join(fs, " <- ")))
+	}
+	sort.Strings(out)
+	return out
 }
 
 // ---------------------------------------------------------------------------
@@ -897,6 +951,7 @@ func execute(c Case) (res result, err error) {
 	// ---- the server answers everything that is outstanding and from now on
 	w.mu.Lock()
 	w.auto = true
+	w.autoFrom = w.arrivals
 	w.logf("env: server answers everything from now on")
 	for _, p := range w.pubs {
 		w.answer(p, "keepalive", 0)
@@ -920,6 +975,16 @@ func execute(c Case) (res result, err error) {
 		res.verdict = verdict
 		res.obs.Verdict = verdict
 		res.obs.Parked = parkedSigs
+		res.obs.State = fmt.Sprint(cl.State())
+		res.obs.All = allGopcua(base)
+		idsDone := make(chan []uint32, 1)
+		go func() { idsDone <- cl.SubscriptionIDs() }() // may block if subMux is part of the deadlock
+		select {
+		case ids := <-idsDone:
+			sort.Slice(ids, func(i, j int) bool { return ids[i] < ids[j] })
+			res.obs.Subs = ids
+		case <-time.After(time.Second):
+		}
 		r.mu.Lock()
 		for _, cc := range r.all {
 			select {
@@ -940,6 +1005,7 @@ func execute(c Case) (res result, err error) {
 	}
 	monitorStopped := func() bool { return !c.AutoReconnect && cl.State() == opcua.Closed }
 	isAPI := func(g gor) bool { return g.has("c27.apiCallGoroutine") }
+	isPub := func(g gor) bool { return g.has("opcua.(*Client).monitorSubscriptions") }
 	isLoop := func(g gor) bool {
 		return g.has("opcua.(*Client).monitorSubscriptions") || g.has("opcua.(*Client).monitor ") || g.has("c27.apiCallGoroutine") || g.has("opcua.(*Client).SubscriptionIDs")
 	}
@@ -1000,18 +1066,27 @@ func execute(c Case) (res result, err error) {
 		return true
 	}
 	if !waitAll(hangBound) {
-		sigs, changed := parked(base, isAPI)
-		if len(sigs) == 0 || changed {
+		all, changed := parked(base, isAPI, isLoop, true)
+		if changed {
 			// not parked at the same frames: no verdict
 			res.starved = true
-			finish("api calls did not return within the bound but are not parked at the same frames in two dumps", sigs)
+			finish("api calls did not return within the bound but are not parked at the same frames in two dumps", all)
 			return res, nil
 		}
-		all, _ := parked(base, isLoop)
-		if monitorStopped() && atSignals(sigs) {
+		if monitorStopped() && atSignals(all) {
 			res.known = kfMonitorStopped
 		}
-		finish(fmt.Sprintf("%d API call(s) blocked for more than %v after the server answered everything (same frames in two goroutine dumps 1 s apart)", len(sigs), hangBound), all)
+		r.mu.Lock()
+		nblocked := 0
+		for _, cc := range r.all {
+			select {
+			case <-cc.done:
+			default:
+				nblocked++
+			}
+		}
+		r.mu.Unlock()
+		finish(fmt.Sprintf("%d API call(s) blocked for more than %v after the server answered everything (same frames in two goroutine dumps 1 s apart)", nblocked, hangBound), all)
 		return res, nil
 	}
 	r.cls["all-api-calls-returned"] = true
@@ -1064,7 +1139,7 @@ func execute(c Case) (res result, err error) {
 		from := arrivalsNow()
 		if !waitArrival(from, progressBound) {
 			if reg2 := common(); len(reg2) > 0 && cl.State() == opcua.Connected {
-				sigs, changed := parked(base, isLoop)
+				sigs, changed := parked(base, isPub, isLoop, false)
 				if changed {
 					res.starved = true
 				}
@@ -1081,7 +1156,7 @@ func execute(c Case) (res result, err error) {
 	from := arrivalsNow()
 	r.subscribe(len(c.Actions), 0)
 	if !waitAll(hangBound) {
-		sigs, changed := parked(base, isLoop)
+		sigs, changed := parked(base, isAPI, isLoop, true)
 		if changed {
 			res.starved = true
 		}
@@ -1098,7 +1173,10 @@ func execute(c Case) (res result, err error) {
 			time.Sleep(100 * time.Millisecond)
 			r.subscribe(len(c.Actions), 0)
 			if !waitAll(hangBound) {
-				sigs, _ := parked(base, isLoop)
+				sigs, changed := parked(base, isAPI, isLoop, true)
+				if changed {
+					res.starved = true
+				}
 				finish(fmt.Sprintf("a fresh Subscribe after the script did not return within %v", hangBound), sigs)
 				return res, nil
 			}
@@ -1113,7 +1191,7 @@ func execute(c Case) (res result, err error) {
 		r.cls["fresh-subscribe-succeeded-after-retries"] = true
 	}
 	if !waitArrival(from, progressBound) {
-		sigs, changed := parked(base, isLoop)
+		sigs, changed := parked(base, isPub, isLoop, false)
 		if changed {
 			res.starved = true
 		}
